@@ -265,7 +265,7 @@ type Frame struct {
 	name     string // inline chain name
 	paramVal map[string]Val
 	// names of function-typed parameters → for sub-contracts
-	callOrd map[string]int
+	callOrd  map[string]int
 	retRes   ssa.Value
 	retDefer bool
 }
@@ -273,36 +273,39 @@ type Frame struct {
 type activeLoop struct {
 	iterHeap  map[string]*Term
 	iterCells map[*ssa.Alloc]Val
-	info    *LoopInfo
-	written map[string]string
-	dec0    *Term
+	info      *LoopInfo
+	written   map[string]string
+	dec0      *Term
 }
 
 type State struct {
-	eng          *Engine
-	x            *Explorer
-	pc           []*Term
-	facts        []*Term
-	factSet      map[string]bool
-	heap         map[string]*Term
-	oldHeap      map[string]*Term
-	frames       []*Frame
-	ghosts       map[string]Val
-	closures     map[string]VFunc
-	trail        []string
-	written      map[string]bool
-	writtenCells map[*ssa.Alloc]bool
-	dry          bool
-	dryLoop      *LoopInfo
-	dryDepth     int
-	lastHeap     map[string]*Term // shared across forks of a dry run: last term written per heap name
-	dead         bool
-	notes        map[string]int
-	nopanic      bool
-	retOrd       int
-	skolems      []*Term
-	obsSeq       int
-	havocNames   []string // heap arrays released wholesale by a callee: later first touches start from a fresh symbol
+	eng           *Engine
+	x             *Explorer
+	pc            []*Term
+	facts         []*Term
+	factSet       map[string]bool
+	heap          map[string]*Term
+	oldHeap       map[string]*Term
+	frames        []*Frame
+	ghosts        map[string]Val
+	closures      map[string]VFunc
+	trail         []string
+	written       map[string]bool
+	uncharged     []unchargedRef
+	unchargedSeen map[string]bool // dry runs: heaps havocked through pointer arguments of uncontracted callees
+	unframed      map[string]bool // heaps excluded from frame reasoning (see loops.go)
+	writtenCells  map[*ssa.Alloc]bool
+	dry           bool
+	dryLoop       *LoopInfo
+	dryDepth      int
+	lastHeap      map[string]*Term // shared across forks of a dry run: last term written per heap name
+	dead          bool
+	notes         map[string]int
+	nopanic       bool
+	retOrd        int
+	skolems       []*Term
+	obsSeq        int
+	havocNames    []string // heap arrays released wholesale by a callee: later first touches start from a fresh symbol
 }
 
 func (st *State) clone() *State {
